@@ -137,21 +137,8 @@ def check(ctx):
                 elif rec["seek"][0][2] != 0:
                     why.append("the seek comes after the read")
             ctx.decide(not why, "C02-R1", lf, rel, lname, desc, "", "; ".join(why))
-        # (c) read_as_traj -> read
-        q = cls + ".read_as_traj"
-        rc = _calls(rat, lambda c: call_name(c) == "self.read")
-        if not rc:
-            ctx.undecided("C02-R1", rat, crel, q, "self.read call", "not found")
-        else:
-            for pname in ("n_frames", "stride", "atom_indices"):
-                if pname not in params(rat):
-                    ctx.violated("C02-R1", rat, crel, q, "%s parameter" % pname, "read_as_traj has no %s parameter" % pname)
-                    continue
-                v = _kw_or_pos(rc[0], pname, params(rd))
-                ok = v is not None and pname in src(v)
-                ctx.decide(ok, "C02-R1", rc[0], crel, q, "%s -> read" % pname, "passed",
-                           "read_as_traj accepts %s but does not pass it to read(): iterload(chunk=...) / load_frame return the whole file" % pname)
 
+    _rat_by_evaluation(ctx)
     _r2(ctx)
     _r3(ctx)
     _r4(ctx)
@@ -159,6 +146,176 @@ def check(ctx):
     _r5_index_arrays(ctx)
     _r6(ctx)
     _r7_reader_buffers(ctx)
+
+
+# ---------------------------------------------------------------------------------------------
+RAT_KEYS = ["h5", "nc", "xtc", "trr", "dcd", "dtr", "mdcrd", "xyz", "lammpstrj", "gro", "arc", "lh5"]
+_N_ALL, _N_SEL, _N_READ, _POS = 5, 2, 4, 7
+
+
+def _same(a, b):
+    from ..tensym import Rat
+    if a is b:
+        return True
+    if isinstance(a, Rat) and isinstance(b, Rat):
+        return (a - b).n.is_zero()
+    if isinstance(a, Rat) or isinstance(b, Rat):
+        return False
+    return type(a) is type(b) and a == b
+
+
+def _rat_by_evaluation(ctx):
+    """Every read_as_traj evaluated (sa/tensym.py) on a model file object: `self.read` is a recorder that returns arrays of four frames (or none) and moves the
+    cursor, `topology.subset` and `Trajectory` are recorders. Decided from the recorded calls, for atom_indices in {None, given}, stride in {None, symbolic S},
+    a non-empty and an empty read:
+      R1(c)  read is called once with the caller's n_frames / stride / atom_indices
+      R4     a reader without a time record synthesises  time[k] = position before the read + stride*k   (stride None counts as 1)
+             a reader with a time record hands that record to the Trajectory
+      R5     the Trajectory gets topology.subset(atom_indices) iff atom_indices is given, else the full topology; also on the empty-read exit"""
+    from ..tensym import TenSym, Obj, Raised, Ten, Rat, Poly
+    from ..pysym import Unsupported as PUnsupported
+    for key in RAT_KEYS:
+        rel, cls = F.rel_cls(key)
+        fn = F.method(ctx, key, "read_as_traj")
+        q = cls + ".read_as_traj"
+        pr = params(fn)
+        # shape of what read() is unpacked into, taken from the consumer
+        rcalls = _calls(fn, lambda c: call_name(c) == "self.read")
+        if len(rcalls) != 1:
+            ctx.undecided("C02-R1", fn, rel, q, "self.read call", "%d calls of self.read" % len(rcalls))
+            continue
+        names, attrs = None, []
+        for n in walk_no_nested(fn):
+            if isinstance(n, ast.Assign) and n.value is rcalls[0]:
+                t = n.targets[0]
+                if isinstance(t, ast.Tuple) and all(isinstance(e, ast.Name) for e in t.elts):
+                    names = [e.id for e in t.elts]
+                elif isinstance(t, ast.Name):
+                    names = t.id
+                    attrs = sorted({a.attr for a in walk_no_nested(fn) if isinstance(a, ast.Attribute) and isinstance(a.value, ast.Name) and a.value.id == t.id})
+        if names is None:
+            ctx.undecided("C02-R1", fn, rel, q, "self.read call", "the result of self.read is not bound to names")
+            continue
+        has_time_record = ("time" in names) if isinstance(names, list) else ("time" in attrs)
+        S = Rat(Poly.var("S"))
+        problems = {"n_frames -> read": [], "stride -> read": [], "atom_indices -> read": [], "time": [], "subset": []}
+        undec = None
+        n_worlds = 0
+        for ai in (None, "AI"):
+            for stride in (None, S):
+                for empty in (False, True):
+                    n_worlds += 1
+                    nfr = 0 if empty else _N_READ
+                    nat = _N_ALL if ai is None else _N_SEL
+                    rec = {"read": [], "subset": [], "traj": []}
+                    full = Obj(tag="full topology", n_atoms=_N_ALL, _numAtoms=_N_ALL, _lenient=True)
+                    sub = Obj(tag="subset topology", n_atoms=_N_SEL, _numAtoms=_N_SEL, _lenient=True)
+                    full.subset = lambda *a_, _rec=rec, _sub=sub, **k_: (_rec["subset"].append((a_, k_)), _sub)[1]
+                    me = Obj(tag="file", distance_unit="angstroms", mode="r", _frame_index=_POS, frame_counter=_POS, topology=full, _lenient=True)
+                    me.tell = lambda _me=me: _me._frame_index
+
+                    def arr(nm, nfr=nfr, nat=nat):  # noqa
+                        low = nm.lower()
+                        if "xyz" in low or "coord" in low:
+                            return Ten.sym(nm, (nfr, nat, 3))
+                        if low in ("time", "step"):
+                            return Ten.sym(nm, (nfr,))
+                        if "vector" in low or low == "box":
+                            return Ten.sym(nm, (nfr, 3, 3))
+                        return Ten.sym(nm, (nfr, 3))
+
+                    def read(*a_, _me=me, _rec=rec, _stride=stride, _arr=arr, _nfr=nfr, **k_):
+                        _rec["read"].append((a_, k_))
+                        adv = _nfr * (1 if _stride is None else 3)
+                        _me._frame_index = _POS + adv        # the cursor moves: a position taken after the read is not the position of the first frame
+                        _me.frame_counter = _POS + adv
+                        if isinstance(names, list):
+                            out = tuple(_arr(nm) for nm in names)
+                        elif attrs:
+                            out = Obj(tag="frames", n_frames=_nfr, _lenient=True, **{a: _arr(a) for a in attrs})
+                        else:
+                            out = _arr("xyz")
+                        _rec["out"] = out
+                        return out
+                    me.read = read
+
+                    def mktraj(ev, call, rec=rec):
+                        kw = {k.arg: ev.ex(k.value) for k in call.keywords}
+                        for i_, a_ in enumerate(call.args):
+                            kw[("xyz", "topology", "time")[i_]] = ev.ex(a_)
+                        rec["traj"].append(kw)
+                        return Obj(tag="traj", _lenient=True)
+                    ts = TenSym({"Trajectory": Obj(_distance_unit="nanometers")}, positive=("S",),
+                                models={"Trajectory": mktraj, "in_units_of": lambda ev, c: ev.ex(c.args[0]), "_check_mode": lambda ev, c: None, "warnings.warn": lambda ev, c: None})
+                    given = {"self": me, "n_frames": "NF", "stride": stride, "atom_indices": ai}
+                    if "topology" in pr:
+                        given["topology"] = full
+                    given = {k_: v_ for k_, v_ in given.items() if k_ in pr}
+                    wdesc = "atom_indices %s, stride %s, %s read" % ("given" if ai else "None", "S" if stride is not None else "None", "empty" if empty else "4-frame")
+                    try:
+                        ts.run_fn(fn, **given)
+                    except Raised as e:
+                        problems["subset"].append("%s: raises %s" % (wdesc, e.exc or e))
+                        continue
+                    except PUnsupported as e:
+                        undec = "%s: not evaluable: %s" % (wdesc, e)
+                        continue
+                    # R1 (c)
+                    if len(rec["read"]) != 1:
+                        for pn in ("n_frames", "stride", "atom_indices"):
+                            problems[pn + " -> read"].append("%s: read is called %d times" % (wdesc, len(rec["read"])))
+                    else:
+                        a_, k_ = rec["read"][0]
+                        got = dict(k_)
+                        rdp = [p_ for p_ in params(F.method(ctx, key, "read")) if p_ != "self"]
+                        for i_, v_ in enumerate(a_):
+                            if i_ < len(rdp):
+                                got.setdefault(rdp[i_], v_)
+                        for pn, want in (("n_frames", "NF"), ("stride", stride), ("atom_indices", ai)):
+                            if pn not in pr:
+                                problems[pn + " -> read"].append("read_as_traj has no %s parameter" % pn)
+                            elif not _same(got.get(pn), want):
+                                problems[pn + " -> read"].append("%s: read gets %s=%r" % (wdesc, pn, got.get(pn)))
+                    # R5
+                    want_top = sub if ai is not None else full
+                    if ai is not None and [s_[0] for s_ in rec["subset"]] != [("AI",)]:
+                        problems["subset"].append("%s: topology.subset is called with %s" % (wdesc, [s_[0] for s_ in rec["subset"]]))
+                    if ai is None and rec["subset"]:
+                        problems["subset"].append("%s: topology.subset is called although no atoms were selected" % wdesc)
+                    if len(rec["traj"]) != 1:
+                        problems["subset"].append("%s: %d Trajectory objects are built" % (wdesc, len(rec["traj"])))
+                        continue
+                    tk = rec["traj"][0]
+                    if tk.get("topology") is not want_top:
+                        problems["subset"].append("%s: the Trajectory gets the %s" % (wdesc, getattr(tk.get("topology"), "tag", tk.get("topology"))))
+                    x = tk.get("xyz")
+                    if not isinstance(x, Ten) or x.shape != (nfr, nat, 3):
+                        problems["subset"].append("%s: xyz of shape %s instead of (%d, %d, 3)" % (wdesc, getattr(x, "shape", None), nfr, nat))
+                    # R4
+                    if empty:
+                        continue
+                    tm = tk.get("time")
+                    if has_time_record:
+                        out = rec.get("out")
+                        rt = out[names.index("time")] if isinstance(names, list) else getattr(out, "time")
+                        if not (isinstance(tm, Ten) and tm.shape == rt.shape and all((a - b).n.is_zero() for a, b in zip(tm.data, rt.data))):
+                            problems["time"].append("%s: the time record of the file does not reach the Trajectory" % wdesc)
+                    else:
+                        sv = S if stride is not None else Rat(Poly.const(1))
+                        want = [Rat(Poly.const(_POS)) + sv * Rat(Poly.const(k_)) for k_ in range(nfr)]
+                        if not (isinstance(tm, Ten) and tm.shape == (nfr,) and all((ts.lift(a) - b).n.is_zero() for a, b in zip(tm.data, want))):
+                            problems["time"].append("%s: time is %s instead of position-before-the-read + stride*k = %s" % (
+                                wdesc, [str(v_) for v_ in tm.data] if isinstance(tm, Ten) else repr(tm), [str(v_) for v_ in want]))
+        if undec:
+            ctx.undecided("C02-R1", fn, rel, q, "read_as_traj evaluated", undec)
+            continue
+        for pn in ("n_frames", "stride", "atom_indices"):
+            why = problems[pn + " -> read"]
+            ctx.decide(not why, "C02-R1", rcalls[0], rel, q, "%s -> read" % pn, "passed as given in %d worlds" % n_worlds,
+                       "read_as_traj does not hand %s to read() as given (%s): iterload(chunk=...) / load_frame / stride / atom selection are not honoured" % (pn, "; ".join(why[:2])))
+        ctx.decide(not problems["subset"], "C02-R5", fn, rel, q, "subset paired with atom_indices", "%d worlds, also the empty-read exit" % n_worlds, "; ".join(problems["subset"][:3]))
+        ctx.decide(not problems["time"], "C02-R4", fn, rel, q, "time = initial + stride*arange" if not has_time_record else "time record handed to the Trajectory",
+                   "by value in %d worlds" % (n_worlds // 2), "; ".join(problems["time"][:2]))
 
 
 # ---------------------------------------------------------------------------------------------
@@ -344,45 +501,7 @@ def _r3(ctx):
 
 
 def _r4(ctx):
-    for key in SYNTH_TIME:
-        rel, cls = F.rel_cls(key)
-        fn = F.method(ctx, key, "read_as_traj")
-        q = cls + ".read_as_traj"
-        cfg = CFG(fn)
-        defs = Defs(cfg)
-        tcalls = _calls(fn, lambda c: call_name(c) in ("Trajectory",) and kwarg(c, "time") is not None)
-        if not tcalls:
-            ctx.undecided("C02-R4", fn, rel, q, "time=", "no Trajectory(..., time=...) construction found")
-            continue
-        tc = tcalls[0]
-        te = kwarg(tc, "time")
-        node = cfg.node_containing(tc)
-        # resolve a single local definition
-        expr = te
-        if isinstance(te, ast.Name):
-            rd = [d for d in defs.reaching(node, te.id) if d.kind == "assign"]
-            if len(rd) == 1:
-                expr = rd[0].value
-        ds = deps(te, node, defs)
-        has_stride = any(d == "stride" for d in ds)
-        has_pos = any(d in ("self._frame_index", "self.tell", "self.frame_counter") for d in ds)
-        # affine shape: an Add with one side containing np.arange multiplied by stride, the other `initial`
-        shape_ok = False
-        if isinstance(expr, ast.BinOp) and isinstance(expr.op, ast.Add):
-            for a, b in ((expr.left, expr.right), (expr.right, expr.left)):
-                sa = src(a)
-                if "arange" in sa and "stride" in sa and "*" in sa and "arange" not in src(b):
-                    bd = deps(b, node, defs)
-                    if any(d in ("self._frame_index", "self.tell", "self.frame_counter") for d in bd):
-                        shape_ok = True
-        # `initial` captured before the read
-        read_nodes = [n for n in cfg.nodes() if any(isinstance(c, ast.Call) and call_name(c) == "self.read" for e in cfg.own_exprs(n) for c in ast.walk(e))]
-        init_nodes = [n for n in cfg.nodes() if cfg.kind[n] == "stmt" and isinstance(cfg.stmt[n], ast.Assign) and dotted(cfg.stmt[n].targets[0]) == "initial"]
-        before = bool(read_nodes) and bool(init_nodes) and all(cfg.dominates(i, r) for i in init_nodes for r in read_nodes)
-        ok = has_stride and has_pos and shape_ok and before
-        ctx.decide(ok, "C02-R4", tc, rel, q, "time = initial + stride*arange", "affine in the absolute frame index; position captured before the read",
-                   "synthesised time `%s` is not initial + stride*arange(len) with the position captured before the read "
-                   "(stride dep: %s, position dep: %s, affine shape: %s, captured before read: %s)" % (src(expr), has_stride, has_pos, shape_ok, before))
+    # the file classes: _rat_by_evaluation
     # load_pdb
     rel = "mdtraj/formats/pdb/pdbfile.py"
     fn = ctx.py.func(rel, "load_pdb")
@@ -408,38 +527,6 @@ def _r4(ctx):
 def _r5(ctx):
     for key in ["h5", "nc", "xtc", "trr", "dcd", "dtr", "mdcrd", "xyz", "lammpstrj", "gro", "arc"]:
         rel, cls = F.rel_cls(key)
-        fn = F.method(ctx, key, "read_as_traj")
-        q = cls + ".read_as_traj"
-        subs = [n for n in walk_no_nested(fn) if isinstance(n, ast.Assign) and isinstance(n.value, ast.Call) and (call_name(n.value) or "").endswith(".subset")]
-        if not subs:
-            ctx.violated("C02-R5", fn, rel, q, "topology.subset", "the topology is never restricted to atom_indices")
-            continue
-        s = subs[0]
-        mod = ctx.py.mod(rel)
-        par = mod.parents.get(s)
-        cond_ok = isinstance(par, ast.If) and src(par.test) == "atom_indices is not None" and s in par.body
-        arg_ok = s.value.args and dotted(s.value.args[0]) == "atom_indices"
-        tname = dotted(s.targets[0])
-        # the name assigned is the one given to every Trajectory(...) in the function
-        tcalls = _calls(fn, lambda c: call_name(c) == "Trajectory")
-        used = all((kwarg(c, "topology", 1) is not None and dotted(kwarg(c, "topology", 1)) == tname) for c in tcalls) and bool(tcalls)
-        # a name that is only bound under the condition must not be used outside it
-        unbound = False
-        if cond_ok and tname not in params(fn):
-            other_defs = [n for n in walk_no_nested(fn) if isinstance(n, ast.Assign) and n is not s and any(dotted(t) == tname for t in n.targets)]
-            if not other_defs and any(any(isinstance(x, ast.Name) and x.id == tname for x in ast.walk(c)) for c in tcalls):
-                unbound = True
-        ok = cond_ok and arg_ok and used and not unbound
-        why = []
-        if not cond_ok:
-            why.append("subset is not guarded by `atom_indices is not None`")
-        if not arg_ok:
-            why.append("subset is not called with atom_indices")
-        if not used:
-            why.append("a Trajectory is built with a topology other than the subset one (`%s`)" % tname)
-        if unbound:
-            why.append("`%s` is only bound when atom_indices is given but is used unconditionally" % tname)
-        ctx.decide(ok, "C02-R5", s, rel, q, "subset paired with atom_indices", "", "; ".join(why))
         # the atom index reaches the subscript as given (validation / dtype conversion only)
         rdm = F.method(ctx, key, "_read" if key in ("xtc", "trr") else "read")
         for n in walk_no_nested(rdm):
